@@ -78,6 +78,9 @@ func ints(xs ...int) string {
 	return strings.Join(r, ",")
 }
 func mask(names []string, all []string) string {
+	if !hooksOn {
+		return "?"
+	}
 	set := map[string]bool{}
 	for _, n := range names {
 		set[n] = true
@@ -135,7 +138,7 @@ func dump3(level string, b *m3.Base, t *m3.Temporal, e *m3.Environmental) string
 	var sb strings.Builder
 	f := b3fields(b)
 	fc := []string{b.AV.String(), b.AC.String(), b.PR.String(), b.UI.String(), b.S.String(), b.C.String(), b.I.String(), b.A.String()}
-	nm := append([]string{}, b.VerifNames()...)
+	nm := append([]string{}, hookNames(b)...)
 	scores := []string{fbits(b.Score())}
 	sevs := []string{strconv.Itoa(int(b.Severity()))}
 	svn := []string{b.Severity().String()}
@@ -146,7 +149,7 @@ func dump3(level string, b *m3.Base, t *m3.Temporal, e *m3.Environmental) string
 		fc = append(fc, t.E.String(), t.RL.String(), t.RC.String())
 		svn = append(svn, t.Severity().String())
 		f = append(f, t3fields(t)...)
-		nm = append(nm, t.VerifNames()...)
+		nm = append(nm, hookNames(t)...)
 		scores = append(scores, fbits(t.Score()))
 		sevs = append(sevs, strconv.Itoa(int(t.Severity())))
 		encs = append(encs, encPair(t.Encode()))
@@ -157,7 +160,7 @@ func dump3(level string, b *m3.Base, t *m3.Temporal, e *m3.Environmental) string
 		fc = append(fc, e.CR.String(), e.IR.String(), e.AR.String(), e.MAV.String(), e.MAC.String(), e.MPR.String(), e.MUI.String(), e.MS.String(), e.MC.String(), e.MI.String(), e.MA.String())
 		svn = append(svn, e.Severity().String())
 		f = append(f, e3fields(e)...)
-		nm = append(nm, e.VerifNames()...)
+		nm = append(nm, hookNames(e)...)
 		scores = append(scores, fbits(e.Score()))
 		sevs = append(sevs, strconv.Itoa(int(e.Severity())))
 		encs = append(encs, encPair(e.Encode()))
@@ -182,7 +185,7 @@ func dump2(b *m2.Base, t *m2.Temporal, e *m2.Environmental) string {
 	var sb strings.Builder
 	f := b2fields(b)
 	fc := []string{b.AV.String(), b.AC.String(), b.Au.String(), b.C.String(), b.I.String(), b.A.String()}
-	nm := append([]string{}, b.VerifNames()...)
+	nm := append([]string{}, hookNames(b)...)
 	scores := []string{fbits(b.Score())}
 	sevs := []string{strconv.Itoa(int(b.Severity()))}
 	svn := []string{b.Severity().String()}
@@ -194,7 +197,7 @@ func dump2(b *m2.Base, t *m2.Temporal, e *m2.Environmental) string {
 		fc = append(fc, t.E.String(), t.RL.String(), t.RC.String())
 		svn = append(svn, t.Severity().String())
 		f = append(f, t2fields(t)...)
-		nm = append(nm, t.VerifNames()...)
+		nm = append(nm, hookNames(t)...)
 		scores = append(scores, fbits(t.Score()))
 		sevs = append(sevs, strconv.Itoa(int(t.Severity())))
 		encs = append(encs, encPair(t.Encode()))
@@ -206,7 +209,7 @@ func dump2(b *m2.Base, t *m2.Temporal, e *m2.Environmental) string {
 		fc = append(fc, e.CDP.String(), e.TD.String(), e.CR.String(), e.IR.String(), e.AR.String())
 		svn = append(svn, e.Severity().String())
 		f = append(f, e2fields(e)...)
-		nm = append(nm, e.VerifNames()...)
+		nm = append(nm, hookNames(e)...)
 		scores = append(scores, fbits(e.Score()))
 		sevs = append(sevs, strconv.Itoa(int(e.Severity())))
 		encs = append(encs, encPair(e.Encode()))
